@@ -52,7 +52,7 @@ theorem lemma_q4 (f : Facts) (rt : Route) (h : f.q4 = some rt) : f.treeRoute = s
 
 /-- the three kinds of exit of the dispatch -/
 def Exit (a : Bool) (f : Facts) (p : Prog) (d : Disp) : Prop :=
-  (∃ rt c v l, d = matched rt c v l p ∧ Src f rt l) ∨
+  (∃ rt c v l pre, d = matched rt c v l p pre ∧ Src f rt l ∧ (pre = [] ∨ pre = [ROp.lifecycle])) ∨
   (∃ rt, d = gone a f rt ∧ (f.vCache = some rt ∨ f.vRoute = some rt)) ∨
   (∃ lab, d = notFound f p lab ∧ (lab = some sNotFound ∨ (a = true ∧ lab = none)))
 
@@ -63,7 +63,7 @@ theorem lemma_versioned_cases (a : Bool) (f : Facts) (p : Prog) : Exit a f p (ve
     simp only
     split
     · exact Or.inr (Or.inl ⟨rt, rfl, Or.inl hc⟩)
-    · exact Or.inl ⟨rt, _, _, _, rfl, Or.inl ⟨rfl, Or.inr (Or.inr (Or.inr (Or.inl hc)))⟩⟩
+    · exact Or.inl ⟨rt, _, _, _, _, rfl, Or.inl ⟨rfl, Or.inr (Or.inr (Or.inr (Or.inl hc)))⟩, by split <;> simp⟩
   | none =>
     simp only
     cases hr : f.vRoute with
@@ -75,40 +75,52 @@ theorem lemma_versioned_cases (a : Bool) (f : Facts) (p : Prog) : Exit a f p (ve
       simp only
       split
       · exact Or.inr (Or.inl ⟨rt, rfl, Or.inr hr⟩)
-      · exact Or.inl ⟨rt, _, _, _, rfl, Or.inl ⟨rfl, Or.inr (Or.inr (Or.inr (Or.inr hr)))⟩⟩
+      · exact Or.inl ⟨rt, _, _, _, _, rfl, Or.inl ⟨rfl, Or.inr (Or.inr (Or.inr (Or.inr hr)))⟩, by split <;> simp⟩
 
 theorem lemma_dispatch_cases (a : Bool) (f : Facts) (p : Prog) : Exit a f p (dispatch a f p) := by
   unfold dispatch
   cases h1 : f.q1 with
-  | some rt => exact Or.inl ⟨rt, _, _, _, rfl, Or.inl ⟨rfl, Or.inl (lemma_q1 f rt h1)⟩⟩
+  | some rt => exact Or.inl ⟨rt, _, _, _, _, rfl, Or.inl ⟨rfl, Or.inl (lemma_q1 f rt h1)⟩, Or.inl rfl⟩
   | none =>
   simp only
   cases h2 : f.q2 with
-  | some rt => exact Or.inl ⟨rt, _, _, _, rfl, Or.inl ⟨rfl, Or.inr (Or.inl (lemma_q2 f rt h2))⟩⟩
+  | some rt => exact Or.inl ⟨rt, _, _, _, _, rfl, Or.inl ⟨rfl, Or.inr (Or.inl (lemma_q2 f rt h2))⟩, Or.inl rfl⟩
   | none =>
   simp only
   cases h3 : f.q3 with
-  | some rt => exact Or.inl ⟨rt, _, _, _, rfl, Or.inr ⟨rfl, lemma_q3 f rt h3⟩⟩
+  | some rt => exact Or.inl ⟨rt, _, _, _, _, rfl, Or.inr ⟨rfl, lemma_q3 f rt h3⟩, Or.inl rfl⟩
   | none =>
   simp only
   cases h4 : f.q4 with
-  | some rt => exact Or.inl ⟨rt, _, _, _, rfl, Or.inl ⟨rfl, Or.inr (Or.inr (Or.inl (lemma_q4 f rt h4)))⟩⟩
+  | some rt => exact Or.inl ⟨rt, _, _, _, _, rfl, Or.inl ⟨rfl, Or.inr (Or.inr (Or.inl (lemma_q4 f rt h4)))⟩, Or.inl rfl⟩
   | none =>
   simp only
   split
   · exact lemma_versioned_cases a f p
   · exact Or.inr (Or.inr ⟨_, rfl, Or.inl rfl⟩)
 
+/-- the exits of the model: router-level response operations per dispatch path -/
+def modelExits : List (List ROp) :=
+  [[.next], [.lifecycle, .next], [.lifecycle, .writeHeader, .writeBody], [.methodNotAllowed], [.noRoute], [.notFound]]
+
+theorem lemma_dispatch_ops (a : Bool) (f : Facts) (p : Prog) : (dispatch a f p).ops ∈ modelExits := by
+  rcases lemma_dispatch_cases a f p with ⟨rt, c, v, l, pre, hd, _, hpre⟩ | ⟨rt, hd, _⟩ | ⟨lab, hd, _⟩
+  · rw [hd]; rcases hpre with rfl | rfl <;> simp [matched, modelExits]
+  · rw [hd]; simp [gone, modelExits]
+  · rw [hd]; unfold notFound; split
+    · simp [modelExits]
+    · split <;> simp [modelExits]
+
 /-- every dispatch path logs handler events only -/
 theorem lemma_dispatch_handlers (a : Bool) (f : Facts) (p : Prog) : ∀ e ∈ (dispatch a f p).hs, isHandler e = true := by
-  rcases lemma_dispatch_cases a f p with ⟨rt, c, v, l, hd, _⟩ | ⟨rt, hd, _⟩ | ⟨lab, hd, _⟩
+  rcases lemma_dispatch_cases a f p with ⟨rt, c, v, l, pre, hd, _, _⟩ | ⟨rt, hd, _⟩ | ⟨lab, hd, _⟩
   · rw [hd]; exact lemma_chainLog_handlers _ _ _ _
   · rw [hd]; simp [gone]
   · rw [hd]; exact (lemma_notFound_handlers _ _ _).1
 
 /-- after the fix every dispatch path reaches an end callback -/
 theorem lemma_dispatch_label_some (f : Facts) (p : Prog) : ∃ l, (dispatch false f p).label = some l := by
-  rcases lemma_dispatch_cases false f p with ⟨rt, c, v, l, hd, _⟩ | ⟨rt, hd, _⟩ | ⟨lab, hd, hl⟩
+  rcases lemma_dispatch_cases false f p with ⟨rt, c, v, l, pre, hd, _, _⟩ | ⟨rt, hd, _⟩ | ⟨lab, hd, hl⟩
   · rw [hd]; exact ⟨l, rfl⟩
   · rw [hd]; exact ⟨rt.pattern, by simp [gone]⟩
   · rw [hd, (lemma_notFound_handlers _ _ _).2]
@@ -124,7 +136,7 @@ theorem lemma_dispatch_label (f : Facts) (p : Prog) (pats : List Bytes) (h : Rou
     have : sNotFound ∈ sentinels := by decide
     simp [labelOK, this]
   have hm : ∀ l, l ∈ pats → labelOK pats l = true := by intro l hl; simp [labelOK, hl]
-  rcases lemma_dispatch_cases false f p with ⟨rt, c, v, l, hd, hsrc⟩ | ⟨rt, hd, hsrc⟩ | ⟨lab, hd, hl⟩
+  rcases lemma_dispatch_cases false f p with ⟨rt, c, v, l, pre, hd, hsrc, _⟩ | ⟨rt, hd, hsrc⟩ | ⟨lab, hd, hl⟩
   · rw [hd]
     refine ⟨l, rfl, hm l ?_⟩
     rcases hsrc with ⟨hl, hs1 | hs2 | hs3 | hs4 | hs5⟩ | ⟨hl, hs6⟩
